@@ -72,7 +72,26 @@ def _known_c11_align(stage, k):
     return True, out.strip()
 
 
-KNOWN = {"c11-align": _known_c11_align}
+def _interleaved_program(n=70):
+    s = "make a get 1\n"
+    for i in range(n):
+        s += "do f%d(p) start return p end\nshout(f%d(1))\n" % (i, i)
+    return s + "make b get 2\nshout(b)\n"
+
+
+def _known_c07_local_range(stage, k):
+    """A valid program whose top-level locals are interleaved with nested-function parameters,
+    scaled past one 64-bit word of the liveness bit set: the static checker must not crash."""
+    outs = []
+    for rel in (False, True):
+        rc, out = run_script(stage, _interleaved_program(), release=rel, timeout=60)
+        outs.append((rel, rc))
+        if not crashed(rc):
+            return False, "front end handled the interleaved-locals program (rc=%d)" % rc
+    return True, "static checker panics (index out of bounds in liveness) on a valid 142-line program: %s" % (outs,)
+
+
+KNOWN = {"c11-align": _known_c11_align, "c07-local-range": _known_c07_local_range}
 
 
 def confirm_known(stage, prop, h, k):
@@ -170,7 +189,121 @@ def adapter_c07_text(stage, prop, h, r, unlisted, outdir):
     return Outcome(False, path, "the real lexer handles the counterexample text (cursor not reachable by lexing from 0?)")
 
 
-ADAPTERS = {"c07_text": adapter_c07_text, "c11_align": adapter_c11_align, "c13_find": adapter_c13_find, "c13_replace": adapter_c13_replace}
+def adapter_c10_layout(stage, prop, h, r, unlisted, outdir):
+    """Renders the relational counterexample as two complete layouts and lexes both natively."""
+    import re as _re
+    vals, _t = _values(stage, h)
+    if vals is None:
+        return Outcome(False, "", "no concrete values from the solver")
+    inst = h.inst
+    if h.name.startswith("sep_"):
+        n, k = [int(x) for x in _re.findall(r"separator_skip!\(\w+, (\d+), (\d+)", inst)[0]]
+        text = bytes(v[0] for v in vals[:n])
+        a, b = text, text[k:]
+    elif h.name.startswith("shift_"):
+        n = int(_re.findall(r"translation!\(\w+, (\d+)", inst)[0])
+        t = bytes(v[0] for v in vals[:n])
+        a, b = t, b" " + t
+    else:
+        # multiword: separators are drawn in order, then the tail byte; rebuild the text from the macro arguments
+        m = _re.findall(r'multiword!\(\w+, (\d+), b"(\w*)", b"(\w*)", b"(\w*)", (\d+), (\d+)', inst)[0]
+        n, w1, w2, w3, l1, l2 = int(m[0]), m[1].encode(), m[2].encode(), m[3].encode(), int(m[4]), int(m[5])
+        flat = [v[0] for v in vals]
+        s1 = bytes(flat[:l1]); rest = flat[l1:]
+        text = w1 + s1 + w2
+        ref = w1 + b" " + w2
+        if w3:
+            s2 = bytes(rest[:l2]); rest = rest[l2:]
+            text += s2 + w3
+            ref += b" " + w3
+        if len(text) < n and rest:
+            text += bytes(rest[:1]); ref += bytes(rest[:1])
+        a, b = text, ref
+    case = ["c10-layout", a.hex(), b.hex()]
+    hit, outs = _native_case(stage, case)
+    path = _save(outdir, prop, h, {"kind": "native-case", "case": case, "expect_rc": 1, "runs": outs,
+                                   "layout_a": a.decode("utf-8", "replace"), "layout_b": b.decode("utf-8", "replace")})
+    return Outcome(hit, path, outs[0]["output"].strip()[-400:])
+
+
+def adapter_c07_local_range(stage, prop, h, r, unlisted, outdir):
+    ok, detail = _known_c07_local_range(stage, None)
+    path = os.path.join(outdir, "%s_%s.json" % (prop.id, h.name))
+    json.dump({"property": prop.id, "kind": "script", "script": _interleaved_program(), "expect": "crash",
+               "harness": h.name, "detail": detail}, open(path, "w"), indent=1)
+    return Outcome(ok, path, detail)
+
+
+# ---- C09: render a rule counterexample to a script and run the real resolver (and evaluator) ----
+_LIT = {0: "1", 1: '"s"', 2: "true", 3: "[1]", 4: 'command("echo")', 5: 'command("echo").run()', 6: "d", 7: "null"}
+_TNAME = ["number", "string", "bool", "array", "process_command", "process_result", "dynamic", "null", "unknown"]
+
+
+def _c09_scripts(h, vals):
+    """Returns [(script, expect)] with expect in {'reject', 'accept'}; the counterexample reproduces
+    when the real front end does the opposite, or accepts and then crashes."""
+    flat = [v[0] if v else 0 for v in (vals or [])]
+    name = h.name
+    pre = "do dyn(x) start return x end\nmake d get dyn(1)\n"   # `d` has the static type dynamic
+    out = []
+    if name.startswith("binary_"):
+        ops = {"binary_add": ["add"], "binary_arith": ["minus", "times", "divide", "mod"],
+               "binary_compare": ["na", "pass", "small pass"], "binary_logic": ["and", "or"]}[name]
+        # draws: [op selector (absent for add)], tl, tr
+        if name == "binary_add":
+            op, tl, tr = ops[0], flat[0], flat[1]
+        else:
+            op, tl, tr = ops[min(flat[0], len(ops) - 1)], flat[1], flat[2]
+        if tl > 7 or tr > 7:
+            return []
+        adm = {"binary_add": lambda a, b: a in (0, 1, 6) and b in (0, 1, 6),
+               "binary_arith": lambda a, b: a in (0, 6) and b in (0, 6),
+               "binary_compare": lambda a, b: (a == b and a in (0, 1, 2)) or a in (6, 7) or b in (6, 7),
+               "binary_logic": lambda a, b: a in (2, 6, 7) and b in (2, 6, 7)}[name](tl, tr)
+        for opx in ([op] if name != "binary_logic" else ["and", "or"]):
+            out.append((pre + "make r get %s %s %s\nshout(r)\n" % (_LIT[tl], opx, _LIT[tr]), "accept" if adm else "reject"))
+    elif name.startswith("function_body"):
+        out.append(("make c get true\njasi(c) start\n  do f() start\n    comot\n  end\n  f()\n  c get false\nend\n", "reject"))
+        out.append(("make c get true\njasi(c) start\n  do f() start\n    next\n  end\n  f()\n  c get false\nend\n", "reject"))
+    elif name in ("comot_context", "next_context"):
+        kw = "comot" if name.startswith("comot") else "next"
+        out.append((kw + "\n", "reject"))
+        out.append(("make c get true\njasi(c) start\n  c get false\n  %s\nend\n" % kw, "accept"))
+    elif name == "return_context":
+        out.append(("return 1\n", "reject"))
+        out.append(("do f() start return 1 end\nshout(f())\n", "accept"))
+    elif name.startswith("rule_"):
+        t = flat[0] if flat else 0
+        if t > 7:
+            return []
+        form = {"rule_not": "make r get not %s\n", "rule_neg": "make r get -%s\n", "rule_condition": "if to say(%s) start shout(1) end\n",
+                "rule_index": "make r get %s[0]\n"}[name] % _LIT[t]
+        adm = {"rule_not": t in (2, 6, 7), "rule_neg": t in (0, 6), "rule_condition": t in (2, 6, 7), "rule_index": t in (3, 6)}[name]
+        out.append((pre + form, "accept" if adm else "reject"))
+    return out
+
+
+def adapter_c09_script(stage, prop, h, r, unlisted, outdir):
+    vals, _t = _values(stage, h)
+    scripts = _c09_scripts(h, vals)
+    tried = []
+    for script, expect in scripts:
+        for rel in (False, True):
+            rc, out = run_script(stage, script, release=rel, timeout=30)
+            rejected = any(l.startswith("DIAG:resolve:Error") or l.startswith("DIAG:parse:Error") for l in out.splitlines())
+            tried.append({"script": script, "expect": expect, "release": rel, "rc": rc, "output": out[-600:]})
+            bad = (expect == "reject" and not rejected) or (expect == "accept" and rejected) or crashed(rc)
+            if bad:
+                path = _save(outdir, prop, h, {"kind": "script", "script": script, "expect": "crash" if crashed(rc) else expect,
+                                               "expect_static": expect, "runs": tried})
+                what = "accepted by the static checker, then the interpreter crashed" if crashed(rc) else (
+                    "ill-formed program accepted" if expect == "reject" else "well-formed program rejected")
+                return Outcome(True, path, "%s: %r" % (what, script[-80:]))
+    path = _save(outdir, prop, h, {"kind": "script", "script": scripts[0][0] if scripts else "", "expect": "n/a", "runs": tried})
+    return Outcome(False, path, "the real front end agrees with the rule on the rendered script(s)")
+
+
+ADAPTERS = {"c07_text": adapter_c07_text, "c09_script": adapter_c09_script, "c07_local_range": adapter_c07_local_range, "c10_layout": adapter_c10_layout, "c11_align": adapter_c11_align, "c13_find": adapter_c13_find, "c13_replace": adapter_c13_replace}
 
 
 def replay_file(art, path):
@@ -183,6 +316,24 @@ def replay_file(art, path):
                 print(out)
                 if rc == art.get("expect_rc", 1) or crashed(rc):
                     worst = 1
+            if worst:
+                print("VIOLATION property=%s replay=%s" % (art["property"], path))
+            return worst
+        finally:
+            stage.cleanup()
+    if art.get("kind") == "script":
+        stage = Stage(art["property"] + ".replay")
+        try:
+            worst = 0
+            for rel in (False, True):
+                rc, out = run_script(stage, art["script"], release=rel, stdin=(art.get("stdin") or "").encode() or None, timeout=60)
+                print(out[-2000:])
+                if art.get("expect") == "crash" and crashed(rc):
+                    worst = 1
+                if art.get("expect_out") is not None:
+                    got = [l[4:] for l in out.splitlines() if l.startswith("OUT:")]
+                    if got != art["expect_out"]:
+                        worst = 1
             if worst:
                 print("VIOLATION property=%s replay=%s" % (art["property"], path))
             return worst
